@@ -74,7 +74,7 @@ impl Profile {
             max_events: 40,
             max_tables: 3,
             max_sessions: 3,
-            max_inserts_per_table: 18,
+            max_inserts_per_table: 32,
             w_session: 50,
             w_auto: 25,
             w_batch: 5,
@@ -128,7 +128,7 @@ pub fn default_guards() -> Vec<String> {
         "mixed_type_index_out_of_table_order",   // X3
         "alter_drop_column",                     // D17, D17b
         "alter_add_column",                      // D16
-        "more_than_18_inserts_per_table",        // D9, D15
+        "more_than_32_inserts_per_table",        // D9, D15b
         "more_than_3_relations",                 // D15, F3 (tables + indexes)
     ]
     .iter()
